@@ -60,6 +60,7 @@ def batches(tier):
             {"name": "misuse", "runs": 780, "weight": 1, "seed_offset": 300000},
             {"name": "foreign", "runs": 780, "weight": 2, "seed_offset": 400000},
             {"name": "fockcount", "runs": 240, "weight": 2, "seed_offset": 500000},
+            {"name": "hetero", "runs": 700, "weight": 1, "seed_offset": 600000},
         ]
     return [
         {"name": "gaussian", "runs": 30000, "weight": 4},
@@ -68,6 +69,7 @@ def batches(tier):
         {"name": "misuse", "runs": 10000, "weight": 1, "seed_offset": 300000},
         {"name": "foreign", "runs": 12000, "weight": 2, "seed_offset": 400000},
         {"name": "fockcount", "runs": 4000, "weight": 2, "seed_offset": 500000},
+        {"name": "hetero", "runs": 8000, "weight": 1, "seed_offset": 600000},
     ]
 
 
@@ -156,14 +158,58 @@ def gen_fockcount(r, seed):
         if g == "Dgate":
             p[0] = {"mul": [0.3, {"pow": [{"fn": "tanh", "a": e}, 2]}]}
         ops.append({"op": g, "p": p, "m": [tg]})
-    return {"backend": "fock", "n": n, "segs": [{"n": n, "name": "seg0", "ops": ops}], "bind": {}, "tape": {}, "how": {"mode": "run", "optimize": False},
+    ra = random.Random("c10a:%d" % seed)
+    if ra.random() < 0.4:
+        # an array-valued parameter: a ket whose amplitudes are expressions over the counts - 1-D for one mode, 2-D for two modes
+        two = len(rest) >= 2 and ra.random() < 0.6
+        e = {"mul": [{"meas": ra.choice(ms)}, rnd(ra, 0.2, 0.6)]}
+        if ra.random() < 0.4:
+            e = {"add": [e, rnd(ra, -0.5, 0.5)]}
+        ops.insert(ra.randint(ops.index(next(o for o in ops if o["op"] == "MeasureFock")) + 1, len(ops)),
+                   {"op": "KetArr", "p": [e], "D": 5, "m": ra.sample(rest, 2) if two else [ra.choice(rest)]})
+    return {"backend": "fock", "n": n, "segs": [{"n": n, "name": "seg0", "ops": ops}], "bind": {}, "tape": {}, "how": {"mode": "run", "optimize": ra.random() < 0.5},
             "cutoff": 5, "foreign": [], "misuse": None, "fockcount": True, "pick": round(r.random(), 6)}
+
+
+def gen_hetero(r, seed):
+    """complex measured parameters: a heterodyne outcome alpha used through re / im / Abs / arg / conjugate in feed-forward operations"""
+    backend = r.choice(["gaussian", "gaussian", "bosonic"])
+    n = r.randint(2, 3)
+    ops = []
+    for m in range(n):
+        ops.append({"op": r.choice(["Coherent", "Squeezed"]), "p": [rnd(r, 0.2, 0.8), rnd(r, 0, 6)], "m": [m]})
+    for _ in range(r.randint(0, 2)):
+        ops.append({"op": "BSgate", "p": [rnd(r, 0.2, 1.3), rnd(r, 0, 3)], "m": r.sample(range(n), 2)})
+    m0 = r.randrange(n)
+    ops.append({"op": "MeasureHD", "m": [m0]})
+    a = {"meas": m0}
+    rest = [m for m in range(n) if m != m0]
+    cj = {"fn": "conjugate", "a": a}
+    forms = [
+        lambda c: ("Zgate", [{"mul": [c, {"fn": "im", "a": a}]}]),
+        lambda c: ("Xgate", [{"mul": [c, {"fn": "re", "a": a}]}]),
+        lambda c: ("Zgate", [{"mul": [c, {"fn": "im", "a": cj}]}]),
+        lambda c: ("Dgate", [{"mul": [abs(c), {"fn": "Abs", "a": a}]}, {"fn": "arg", "a": a}]),
+        lambda c: ("Dgate", [{"mul": [abs(c), {"fn": "Abs", "a": a}]}, {"fn": "arg", "a": cj}]),
+        lambda c: ("Rgate", [{"fn": "arg", "a": a}]),
+        lambda c: ("Rgate", [{"mul": [c, {"fn": "re", "a": {"mul": [a, a]}}]}]),
+        lambda c: ("Rgate", [{"mul": [c, {"fn": "im", "a": {"mul": [a, a]}}]}]),
+        lambda c: ("Sgate", [{"mul": [0.4, {"fn": "tanh", "a": {"fn": "Abs", "a": a}}]}, {"fn": "arg", "a": cj}]),
+        lambda c: ("Xgate", [{"mul": [c, {"fn": "re", "a": {"mul": [a, ["c", 0.6, 0.8]]}}]}]),
+    ]
+    for _ in range(r.randint(1, 4)):
+        g, p = r.choice(forms)(rnd(r, 0.2, 0.9) * r.choice([1, -1]))
+        ops.append({"op": g, "p": p, "m": [r.choice(rest)]})
+    return {"backend": backend, "n": n, "segs": [{"n": n, "name": "seg0", "ops": ops}], "bind": {}, "tape": seed, "how": {"mode": "run", "optimize": r.random() < 0.4},
+            "cutoff": 5, "foreign": [], "misuse": None, "hetero": True, "m0": m0, "select": (["c", rnd(r, -0.8, 0.8), rnd(r, -0.8, 0.8)] if r.random() < 0.3 else None)}
 
 
 def generate(seed, tier, batch):
     r = random.Random("c10:%d" % seed)
     if batch == "fockcount":
         return gen_fockcount(r, seed)
+    if batch == "hetero":
+        return gen_hetero(r, seed)
     big = tier == "thorough"
     backend = batch if batch in ("gaussian", "bosonic", "fock") else r.choice(["gaussian", "gaussian", "bosonic", "fock"] if batch == "misuse" else ["gaussian", "gaussian", "bosonic"])
     n = r.randint(1, 3 if backend == "fock" else 4)
@@ -397,6 +443,8 @@ def execute(script, w):
 
     if script.get("fockcount"):
         return exec_fockcount(script, w, feats)
+    if script.get("hetero"):
+        return exec_hetero(script, w, feats)
     with simenv:
         simenv.rng.handler = tape
         if script.get("misuse"):
@@ -504,7 +552,8 @@ def exec_fockcount(script, w, feats):
         try:
             ps = build_program(sp)
             w.step("run", symbolic=True)
-            rs = simenv.engine("fock", {"cutoff_dim": D}).run(ps)
+            # the symbolic program may go through the optimiser (the twin is always the plain circuit with the numbers substituted)
+            rs = simenv.engine("fock", {"cutoff_dim": D}).run(ps, **({"compile_options": {"optimize": True}} if script["how"].get("optimize") else {}))
         except Violation:
             raise
         except Exception as ex:  # noqa
@@ -541,6 +590,60 @@ def exec_fockcount(script, w, feats):
         w.probes["photon_count_as_parameter"] += 1
         if len(set(drawn.values())) > 1:
             w.probes["photon_counts_differ_between_modes"] += 1
+
+
+def exec_hetero(script, w, feats):
+    """symbolic run (the heterodyne outcome is drawn by the simulator from the declared distribution, or post-selected), then the numeric twin
+    built from the recorded complex outcome under the same draw"""
+    backend = script["backend"]
+    outcomes = SeededOutcomes(script["tape"], w)
+    simenv = SimEnv(w, outcomes, FaultPlan())
+    sp = copy.deepcopy(script["segs"][0])
+    m0 = script["m0"]
+    if script.get("select"):
+        for o in sp["ops"]:
+            if o["op"] == "MeasureHD":
+                o["op"], o["kw"] = "MeasureHeterodyne", {"select": script["select"]}
+    feats = feats + ["heterodyne"]
+    with simenv:
+        try:
+            ps = build_program(sp)
+            w.step("run", symbolic=True)
+            outcomes.rewind()
+            rs = simenv.engine(backend).run(ps, **({"compile_options": {"optimize": True}} if script["how"].get("optimize") else {}))
+        except Violation:
+            raise
+        except Exception as ex:  # noqa
+            w.violation("substitution", "symbolic-run-raises", {"exc": type(ex).__name__, "msg": str(ex)[:300]}, feats)
+            return
+        alpha = complex(np.asarray(rs.samples_dict[m0]).ravel()[0])
+        mv = []
+        latest = {}
+        for o in sp["ops"]:
+            mv.append(dict(latest))
+            if o["op"] in ("MeasureHD", "MeasureHeterodyne"):
+                latest[m0] = alpha
+        try:
+            pt = build_program(sp, numeric={"bind": {}, "mvals_at": mv})
+            w.step("run", symbolic=False)
+            outcomes.rewind()
+            rt = simenv.engine(backend).run(pt)
+        except Violation:
+            raise
+        except Exception as ex:  # noqa
+            w.probes["twin_not_runnable"] += 1
+            w.log("twin_error", exc=type(ex).__name__, msg=str(ex)[:200])
+            return
+        alpha_t = complex(np.asarray(rt.samples_dict[m0]).ravel()[0])
+        if abs(alpha_t - alpha) > 1e-9:
+            w.violation("substitution", "twin-outcome-differs", {"symbolic": [alpha.real, alpha.imag], "twin": [alpha_t.real, alpha_t.imag]}, feats)
+            return
+        d = obs_diff(state_obs(rt.state), state_obs(rs.state), 1e-7)
+        if d:
+            w.violation("substitution", "final-state symbolic vs numeric twin", {"diff": d, "outcome": [alpha.real, alpha.imag]}, feats)
+            return
+        w.nontrivial.add(hashlib.sha256(json.dumps(script, sort_keys=True).encode()).hexdigest()[:16])
+        w.probes["complex_outcome_as_parameter"] += 1
 
 
 def foreign_activity(script, f, w, simenv):
